@@ -167,6 +167,7 @@ class Vec:
     storing it into a column of a table whose index is not 0..n-1 aligns by label, i.e. onto the wrong rows."""
 
     exact = False                     # True: literally these elements (len() is a number, not an abstract row count)
+    labels = None                     # literal index labels (exact tables built with labels=): Series[int] is then a label lookup
 
     def __init__(self, vals, fresh=False, aligned=False):
         self.v = list(vals)
@@ -236,6 +237,8 @@ class DF:
     @index.setter
     def index(self, tag):
         self.__dict__["_index"] = tag
+        if tag == "range" and self.__dict__.get("labels") is not None:
+            self.labels = list(range(self.n))
         if tag == "range":
             for v in self.__dict__.get("cols", {}).values():
                 if isinstance(v, Vec) and isinstance(v.aligned, str):
@@ -254,9 +257,12 @@ class DF:
                 if isinstance(v, Vec):
                     v.exact = True
 
+    labels = None                     # literal index labels of an exact table (None: unknown)
+
     def copy(self):
         d = DF({k: Vec(v.v, aligned=True) if isinstance(v, Vec) else v for k, v in self.cols.items()}, self.n, self.index, self.pop)
         d.exact = getattr(self, "exact", False)
+        d.labels = list(self.labels) if self.labels is not None else None
         return d
 
     def __repr__(self):
